@@ -4,8 +4,9 @@
    (function names are given at each definition).  The tree is the MVP of the Go code: one leaf.
    Go fixed-width arithmetic is written out with wrap16/wrap32/wrap64/sub32/sub64.
 
-   The model follows /repo with the C14 repair of notes/fixes applied:
-     c14-duplicate-key : InsertRecord refuses a key whose hash is already present
+   The model follows /repo including the C14 repairs committed there:
+     1c79147 name hash = lookup3 (loop `> 12`, case 12, case 0)
+     6c2e9ef InsertRecord refuses a key whose hash is already present (notes/fixes/c14-duplicate-key)
    No proofs in this file (Proofs/BT2.v, Proofs/Lookup3.v). *)
 From HV Require Import Base.Prelude Base.Crc32.
 
@@ -166,7 +167,7 @@ Fixpoint find_index (rs : list rec) (h : N) (i : nat) : option nat :=
 
 Definition sub16 (a b : N) : N := (a + 65536 - b mod 65536) mod 65536.
 
-(* InsertRecord (with c14-duplicate-key) *)
+(* InsertRecord *)
 Definition insert_record (s : bt2) (name : bytes) (v : N) : bt2 * bool :=
   let h := jenkins name in
   let r := (h, to7 v) in
